@@ -175,6 +175,7 @@ class Report:
             kf = match_known(self.known, ob.id, None)
             if kf is not None:
                 self.known_hits.append((kf["key"], f"obligation {ob.id} refuted: {kf['text']}"))
+                ob.kind = "known-finding"
                 continue
             rep = None
             if ob.replay is not None:
@@ -201,9 +202,10 @@ class Report:
                                         "replay": f, "no_failing_input": False, "bounded": True})
             for k in b.known_hits:
                 self.known_hits.append(k)
-        n_ob = len(self.obligations)
-        n_ok = sum(1 for o in self.obligations if o.status == smt.PROVED)
-        n_und = sum(1 for o in self.obligations if o.status == smt.UNDECIDED)
+        counted = [o for o in self.obligations if o.kind != "known-finding"]
+        n_ob = len(counted)
+        n_ok = sum(1 for o in counted if o.status == smt.PROVED)
+        n_und = sum(1 for o in counted if o.status == smt.UNDECIDED)
         if n_ob == 0 and not self.bounded:
             self.internal_errors.append("zero obligations generated: vacuous run")
         # baseline drift: obligations proved on the unchanged tree that are no longer proved
@@ -303,6 +305,7 @@ class Report:
             "callees_inlined_without_contract": sorted(self.inlined),
             "dropped_by_extraction": sorted(self.dropped),
             "baseline_obligations_not_proved_now": lost,
+            "known_finding_obligations": [o.id for o in self.obligations if o.kind == "known-finding"],
             "known_findings_reported": sorted({k for k, _ in self.known_hits}),
             "repo_head": self.repo.head(),
             "notes": self.notes,
@@ -335,10 +338,8 @@ def match_known(known, site, facts):
         if not any(site == x or (x.endswith("*") and site.startswith(x[:-1])) for x in ws):
             continue
         pred = k.get("predicate")
-        if pred is None:
+        if pred is None or facts is None:
             return k
-        if facts is None:
-            continue
         fn = getattr(predicates, pred, None)
         if fn is not None and fn(facts):
             return k
@@ -424,6 +425,8 @@ def run_case(rep: Report, prop, qual, name, setup, post, *, contracts=None, loop
                 if interp is not None:
                     rep.inlined |= interp.inlined
                     rep.used_contracts |= interp.used_contracts
+                if outcome == "abort" and "loop_end" in ctx.ghost:
+                    outcome = "loop_end"
                 if outcome != "abort":
                     for item in post(interp, ctx, outcome, val, body.aux) or []:
                         _record_clause(per_clause, item, ctx, timeout_s)
